@@ -23,7 +23,10 @@ func TestMain(m *testing.M) { ev.Main(m, "C12") }
 
 // Step ops: connect (next connection of the chain, on node Node), ping/sub/disconnect/close
 // (connection J), gossip (deliver pending message number G mod pending to node Node),
-// announce (deliver to node Node exactly the broadcast announcing connection J's session), gossipall.
+// announce (deliver to node Node exactly the broadcast announcing connection J's session), gossipall,
+// lose (an outage of the links between the brokers: every pending broadcast that is not the announcement of a
+// session is lost for good), sync (memberlist's push/pull: every pair of nodes exchanges full-state snapshots),
+// age (seven hours pass).
 type Step struct {
 	Op   string `json:"op"`
 	J    int    `json:"j,omitempty"`
@@ -89,6 +92,14 @@ func run(c Case) (f *failure, nontrivial bool) {
 		return false
 	}
 	newSubAfterOld := false
+	lost := false
+	syncAll := func() {
+		for i, a := range cl.Nodes {
+			for _, b := range cl.Nodes[i+1:] {
+				cl.FullSync(a, b)
+			}
+		}
+	}
 	for si, st := range c.Steps {
 		switch st.Op {
 		case "connect":
@@ -179,6 +190,29 @@ func run(c Case) (f *failure, nontrivial bool) {
 			if f := settle(); f != nil {
 				return f, nontrivial
 			}
+		case "lose":
+			cl.CollectGossip()
+			for _, g := range cl.Gossip() {
+				es, err := dst.Decode(g.Msg)
+				keep := err != nil
+				for _, e := range es {
+					if e.Kind == "sess" && e.Present() {
+						keep = true // C12's proviso: the node of the next connection knows the previous session
+					}
+				}
+				if !keep && !g.Dead {
+					g.Dead = true
+					lost = true
+				}
+			}
+		case "sync":
+			syncAll()
+			if f := settle(); f != nil {
+				return f, nontrivial
+			}
+			if lost {
+				nontrivial = true
+			}
 		}
 	}
 	if len(chain) < 2 {
@@ -189,7 +223,12 @@ func run(c Case) (f *failure, nontrivial bool) {
 			if f := settle(); f != nil {
 				return f
 			}
-			if cl.DeliverAllGossip() == 0 {
+			k := cl.DeliverAllGossip()
+			if lost {
+				// what an outage swallowed is repaired by the periodic full-state exchange
+				syncAll()
+			}
+			if k == 0 {
 				break
 			}
 		}
@@ -245,6 +284,19 @@ func run(c Case) (f *failure, nontrivial bool) {
 	}
 	if f := resolve("after the displaced sessions were torn down"); f != nil {
 		return f, nontrivial
+	}
+	// nobody resolves the identifier to a session that is gone (ended by the script, or torn down
+	// by the broker at its keep-alive exchange)
+	for _, n := range cl.Nodes {
+		md, err := n.State.SessionMetadatas().ByClientID("shared-id", "_default")
+		if err != nil {
+			continue
+		}
+		for j, x := range chain {
+			if x.sid == md.SessionID && (x.over || x.k.Conn.State().BrokerClosed) {
+				return &failure{fmt.Sprintf("node %s resolves the client id to session %s of connection %d, which has ended (listed: %v)", n.Name, x.sid, j, sim.SortedSessions(n)), false}, nontrivial
+			}
+		}
 	}
 	// global: every listed subscription belongs to a listed session (the displaced sessions'
 	// subscriptions went away with them)
@@ -356,7 +408,7 @@ func TestRandom(t *testing.T) {
 	rapid.Check(t, func(t *rapid.T) {
 		c := Case{Nodes: rapid.IntRange(1, 3).Draw(t, "nodes")}
 		chainLen := rapid.IntRange(2, 5).Draw(t, "chain")
-		conns := 0
+		conns, ages := 0, 0
 		c.Steps = append(c.Steps, Step{Op: "connect", Node: rapid.IntRange(0, c.Nodes-1).Draw(t, "node")})
 		conns++
 		n := rapid.IntRange(2, 16).Draw(t, "steps")
@@ -372,7 +424,10 @@ func TestRandom(t *testing.T) {
 			case x < 8:
 				c.Steps = append(c.Steps, Step{Op: rapid.SampledFrom([]string{"disconnect", "close"}).Draw(t, "end"), J: rapid.IntRange(0, conns-1).Draw(t, "j")})
 			case x < 10 && rapid.IntRange(0, 4).Draw(t, "age") == 0:
-				c.Steps = append(c.Steps, Step{Op: "age"})
+				if ages < 4 {
+					ages++
+					c.Steps = append(c.Steps, Step{Op: rapid.SampledFrom([]string{"age", "age", "lose", "sync"}).Draw(t, "ageOrOutage")})
+				}
 			case x < 10:
 				c.Steps = append(c.Steps, Step{Op: "gossip", G: rapid.IntRange(0, 40).Draw(t, "g"), Node: rapid.IntRange(0, c.Nodes-1).Draw(t, "to")})
 			case x < 11:
@@ -459,4 +514,35 @@ func TestStaleAnnouncement(t *testing.T) {
 		}
 	}
 	ev.Exhaustive(fmt.Sprintf("late announcements (shard %d/%d): all placements of chains of 3..%d connections over 2 and 3 nodes; the newest session's host is handed the announcement of every earlier session (oldest first / newest first), the newest session pings after each", si, sn, maxLen))
+}
+
+// TestOutage: a takeover on another node while the links between the brokers are down: the removal of
+// the old session's record reaches the old session's host only through the full-state exchange, 0-28
+// hours later (connections have a keep-alive of 18 h). Whenever the exchange happens, the old
+// session goes at its next keep-alive exchange and every node resolves the identifier to the new
+// session (or to nothing once that one has left) — never to the displaced one again.
+func TestOutage(t *testing.T) {
+	for nodes := 2; nodes <= 3; nodes++ {
+		for ages := 0; ages <= 4; ages++ {
+			for _, newestLeaves := range []string{"", "before-sync", "after-sync"} {
+				for _, oldPings := range []bool{false, true} {
+					c := Case{Nodes: nodes, Steps: []Step{{Op: "connect", Node: 0}, {Op: "sub", J: 0}, {Op: "gossipall"}, {Op: "connect", Node: 1}, {Op: "sub", J: 1}, {Op: "lose"}}}
+					for k := 0; k < ages; k++ {
+						c.Steps = append(c.Steps, Step{Op: "age"})
+					}
+					if newestLeaves == "before-sync" {
+						c.Steps = append(c.Steps, Step{Op: "disconnect", J: 1}, Step{Op: "lose"})
+					}
+					c.Steps = append(c.Steps, Step{Op: "sync"})
+					if oldPings {
+						c.Steps = append(c.Steps, Step{Op: "ping", J: 0})
+					}
+					if newestLeaves == "after-sync" {
+						c.Steps = append(c.Steps, Step{Op: "disconnect", J: 1}, Step{Op: "sync"})
+					}
+					check(t, c, "outage")
+				}
+			}
+		}
+	}
 }
